@@ -14,6 +14,7 @@ Theorems about the executable model `Mouette.Prepare` (which follows mouette/mes
 `fix:` commits of known_findings.d/C02.json) and about the cell-face tables the translator re-extracts
 from the source on every run (`Mouette.Generated.C02`).
 -/
+set_option linter.unusedSimpArgs false
 namespace Mouette.Props.C02
 open Mouette.Prepare Mouette.Generated.C02
 open Mouette.Generated
@@ -607,7 +608,9 @@ theorem face_corner_guard_bridge (r : Raw) :
       then { r with fcElem := r.faces.flatten, fcAdj := owners r.faces } else r := by
   have e1 : (C02S.faceCornerGuard r.fcElem.length r.fcAdj.length (r.faces.map List.length).sum = true) ↔
       (r.fcElem.length = 0 ∨ r.fcElem.length ≠ (r.faces.map List.length).sum) := by
-    simp only [C02S.faceCornerGuard, Bool.or_eq_true, decide_eq_true_eq]
+    -- tolerant of respellings of the test (commuted `or`, `0 == nc`, `nf != nc`): linear arithmetic decides the equivalence
+    simp only [C02S.faceCornerGuard, Bool.or_eq_true, Bool.and_eq_true, decide_eq_true_eq, Bool.not_eq_true',
+      decide_eq_false_iff_not] <;> omega
   unfold genFaceCorners
   simp only [e1]
 
@@ -623,10 +626,12 @@ theorem cell_corner_guard_bridge (r : Raw) :
   have e1 : (C02S.cellCornerGuard r.ccElem.length r.ccAdj.length (r.cells.map List.length).sum = true) ↔
       (r.ccElem.length = 0 ∨ r.ccAdj.length = 0 ∨ r.ccElem.length ≠ (r.cells.map List.length).sum
         ∨ r.ccAdj.length ≠ (r.cells.map List.length).sum) := by
-    simp only [C02S.cellCornerGuard, Bool.or_eq_true, decide_eq_true_eq, or_assoc]
+    simp only [C02S.cellCornerGuard, Bool.or_eq_true, Bool.and_eq_true, decide_eq_true_eq, Bool.not_eq_true',
+      decide_eq_false_iff_not] <;> omega
   have e2 : (C02S.cellCornerAdjOnlyGuard r.ccElem.length r.ccAdj.length (r.cells.map List.length).sum = true) ↔
       (r.ccAdj.length = 0 ∧ r.ccElem.length > 0) := by
-    simp only [C02S.cellCornerAdjOnlyGuard, Bool.and_eq_true, decide_eq_true_eq]
+    simp only [C02S.cellCornerAdjOnlyGuard, Bool.or_eq_true, Bool.and_eq_true, decide_eq_true_eq, Bool.not_eq_true',
+      decide_eq_false_iff_not] <;> omega
   unfold genCellCorners
   simp only [e1, e2]
 
@@ -679,26 +684,20 @@ example :
 as written, is "not a valid edge" -/
 theorem completion_skip_bridge (n : Nat) (a b : Int) (h : a ≤ b) :
     C02S.completionSkips a b n = !validE n (a, b) := by
-  rw [Bool.eq_iff_iff]
-  simp only [C02S.completionSkips, Bool.or_eq_true, Bool.not_eq_true', Bool.and_eq_true, decide_eq_true_eq,
-    Bool.not_eq_eq_eq_not, Bool.not_true, Bool.and_eq_false_imp]
+  -- tolerant of respellings of the test (`edge[0] < 0 or edge[1] >= N`, commuted operands …): both sides are decided
+  -- by linear arithmetic from `a ≤ b`
   have hv := validE_iff n (a, b)
-  constructor
-  · intro hs
-    cases hval : validE n (a, b) with
-    | false => rfl
-    | true => have := hv.mp hval; simp only [] at this; rcases hs with hs | hs <;> simp_all <;> omega
-  · intro hs
-    by_cases hab : a = b
-    · exact Or.inl hab
-    · right
-      by_cases h0 : 0 ≤ a
-      · by_cases hb : b < n
-        · exfalso
-          have : validE n (a, b) = true := hv.mpr ⟨hab, h0, by omega, by omega, hb⟩
-          simp [this] at hs
-        · simp [h0, hb]
-      · simp [h0]
+  cases hval : validE n (a, b) with
+  | true =>
+    have h1 := hv.mp hval
+    simp only [] at h1
+    simp [C02S.completionSkips] <;> omega
+  | false =>
+    have h1 : ¬ (a ≠ b ∧ 0 ≤ a ∧ a < n ∧ 0 ≤ b ∧ b < n) := fun hh => by
+      have := hv.mpr hh
+      rw [hval] at this
+      exact Bool.noConfusion this
+    simp [C02S.completionSkips] <;> omega
 
 /-- the completion never stores an invalid edge, not even temporarily: what it appends to the (shared) edge container
 are valid, low-index-first sides of faces. In particular a second construction from a built mesh appends nothing to
